@@ -77,7 +77,9 @@ CHECKS = {
         text=("For a family of hint masks (all/none, each of the 18+17 bits cleared and alone, all RR/other-data masks, all subsets "
               "of the four section bits, random masks) and records with every optional member set, TLC checks on the real output "
               "bytes that no member excluded by a cleared bit is present, that every table entry is reachable from a stored item, "
-              "that AEC/MM arrays exist only when enabled, and that the preamble states the hints applied."),
+              "that AEC/MM arrays exist only when enabled, and that the preamble states the hints applied. The same masks are put in "
+              "force on a block the application keeps itself (armed with a set other than #0, moved / copied to another object - "
+              "also by a growing std::vector -, written, cleared, re-used): MCExporterX + replay."),
         design_ref="DESIGN.md section 3 / C04",
         note=TRUST + "2^18 x 2^17 masks are covered by families and random samples, not enumerated.",
         technique="TLC trace validation: hint semantics in Records.tla applied to submitted records, compared with the TLA+ RFC 8618 "
@@ -97,7 +99,8 @@ CHECKS = {
         category="model_checking",
         text=("TLC keeps, in the Exporter model, the sum of the byte counts returned by buffer/write_block/rotate calls per output and "
               "compares it with the uncompressed size of the real closed output (+1 on destruction) for every history (three "
-              "compression modes, file-name and descriptor outputs, rotations, empty structures); per-call counts of the encoder are "
+              "compression modes, file-name and descriptor outputs, rotations, empty structures; an output that holds no block must "
+              "have received exactly what was reported, i.e. nothing); per-call counts of the encoder are "
               "validated against Len(EncBytes) by TraceEncoder (see C06)."),
         design_ref="DESIGN.md section 3 / C10",
         note=TRUST + "python3 zlib/lzma.",
@@ -129,7 +132,8 @@ CHECKS = {
         category="model_checking",
         text=("TLC model-checks BlockTable (Abs: duplicate-free sequence, Add = find-or-append; Impl: reverse index of references) "
               "for all histories of add/clear/copy/destroy up to 5-6 steps; TLC emits every history and the driver replays them on "
-              "each of the nine real tables with values built in fresh objects (pairs differing in exactly one optional member), "
+              "each of the nine real tables with values handed over in fresh objects and in re-used scratch objects that keep their "
+              "capacity (pairs differing in exactly one optional member, the empty list and the empty string among them), "
               "plus growth sequences of thousands of adds; every returned index, size and read-back value is validated by TLC. "
               "Exporter streams across many flushes: TLC checks every written table for duplicates and index closure."),
         design_ref="DESIGN.md section 3 / C11",
@@ -156,7 +160,11 @@ CHECKS = {
               "cleared or destroyed is the bad state ub) against Abs for all histories of add/clear/copy/destroy over three block "
               "slots; the pinned shallow copy is a seeded self-test. Every generated history containing a copy is replayed under "
               "AddressSanitizer on real blocks for nine tables x copy/move construction and assignment x CdnsBlock/CdnsBlockRead "
-              "and blocks returned by the reader; TLC validates every index/size/value and that a copy owns all its lookup keys."),
+              "and blocks returned by the reader; TLC validates every index/size/value and that a copy owns all its lookup keys. "
+              "BlockValue.tla treats whole blocks as values - items, read cursors, the address-event iterator and the block "
+              "parameters a block is filled under (fullness, hints, tick rate) - for the six manners of obtaining a block; all "
+              "histories <= 5-6 ops model-checked (five named deviations must fail) and replayed on real CdnsBlockRead / CdnsBlock "
+              "objects: every read, every item count, what add_*() reports and the serialisation read back are validated by TLC."),
         design_ref="DESIGN.md section 3 / C19",
         note=TRUST + "ASan/UBSan; the CDNS_VERIF probe reading key addresses.",
         technique="TLA+ spec (BlockTable.tla) model-checked with TLC; TLC-generated histories replayed under ASan and validated with "
@@ -169,7 +177,9 @@ CHECKS = {
               "scenarios with rotations. Recorded runs of the real gzip/xz/plain writers (chunk sequences 1 B..8 MiB quick / 32 MiB "
               "thorough; zero, text, random, empty; rotation points; file-name and descriptor targets) and of the exporter end to "
               "end are validated by TLC: each closed output must be a single complete stream (python zlib/lzma, independent) with "
-              "the right suffix whose content is exactly the chunk sequence / record sequence of the scenario."),
+              "the right suffix whose content is exactly the chunk sequence / record sequence of the scenario; also for incompressible "
+              "outputs through the residues of the compressors' chunking, chunk lengths around the scratch-buffer fractions "
+              "behind a backlog (ASan) and sessions run during stack unwinding."),
         design_ref="DESIGN.md section 3 / C14",
         note=TRUST + "python3 zlib/lzma; the driver's memcmp of decompressed data against the chunks it generated.",
         technique="TLA+ spec (Writer.tla) model-checked with TLC + TLC trace validation of recorded writer/exporter runs (TraceWriter.tla)",
@@ -181,7 +191,8 @@ CHECKS = {
               "with rotations and rotation onto an existing name; seeded deviations (rename before the last writes, writing to the "
               "final name) must be found. On the real code every scenario is re-run in a child process killed immediately before "
               "its k-th write/writev/rename for every k; TLC validates the system-call log (data only to .part, rename only "
-              ".part -> final, nothing after the rename) and every post-crash directory."),
+              ".part -> final, nothing after the rename) and every post-crash directory (names re-used, stale .part files, "
+              "compressed outputs closed while the compressor holds back tens of KiB)."),
         design_ref="DESIGN.md section 3 / C15",
         note=TRUST + "interposition of write/writev/rename in the driver executable; crash = _exit before the call (no power-loss semantics).",
         technique="TLA+ spec (Writer.tla) model-checked with TLC over all crash points + crash-point enumeration on the real code "
@@ -193,7 +204,8 @@ CHECKS = {
               "normally for an output that lost bytes'. On the real exporter every write/writev of every scenario (plain/gzip/xz x "
               "file-name/descriptor, rotations) is made to fail with ENOSPC, EIO or a short count, once and persistently; TLC walks "
               "the ordered log of API outcomes and system calls and checks reporting and the documented recovery (rotate to a "
-              "healthy destination, write_block, complete valid file with the failed block's records). Three genuine defects of the "
+              "healthy destination, write_block, complete valid file with the failed block's records), also when the failing write "
+              "lies inside a first block larger than the staging buffer. Three genuine defects of the "
               "pinned code are recorded as known findings (known_findings.json); any other violation is reported."),
         design_ref="DESIGN.md section 3 / C16 and section 5",
         note=TRUST + "interposition of write/writev; destruction is outside the guarantee.",
@@ -206,7 +218,8 @@ CHECKS = {
               "map) for all tuples of up to three inputs from six kinds (ok with 1-2 sets, version mismatch, unopenable, truncated, "
               "empty-block-only, same file twice); the pinned pass-2 behaviour is a seeded self-test. Real cdns-merge runs on tuples "
               "of real exporter files (differing parameter sets, tick rates, hints, versions; truncated anywhere; missing, garbage, "
-              "empty files; a file listed twice): TLC parses all inputs and the output independently and compares block by block "
+              "empty files; a file listed twice; ~40 files holding the same records under parameter sets exactly one member "
+              "apart): TLC parses all inputs and the output independently and compares block by block "
               "(records, statistics, parameter equality), and checks the stdout of cdns-itemcount for all four option combinations "
               "against the counts of the independent parse."),
         design_ref="DESIGN.md section 3 / C18",
@@ -221,7 +234,9 @@ CHECKS = {
               "its own exporter/reader/renderers on distinct outputs (file-name and descriptor, three compression modes), run "
               "concurrently; every per-thread trace is validated by TLC with the same TraceExporter specification used for "
               "sequential runs, so any deviation from the sequential semantics (wrong bytes, records, counters) is a violation; "
-              "the same driver runs under ThreadSanitizer, whose race report truncates the traces and is recorded as a violation."),
+              "the same driver runs under ThreadSanitizer, whose race report truncates the traces and is recorded as a violation; "
+              "every closed output of the concurrent run must be byte-identical to that of the same programs run one after "
+              "another on one thread (digests compared by TLC, TraceReader event B); concurrent readers likewise."),
         design_ref="DESIGN.md section 3 / C20",
         note=TRUST + "ThreadSanitizer; schedules are those the OS produced (sampled, with injected yields), not enumerated.",
         technique="TLA+ spec (Threads.tla) model-checked with TLC; per-thread traces of concurrent runs validated with "
